@@ -122,8 +122,9 @@ def resolve(spec):
         import pymtl3.passes.testcases.test_cases as tc
         c = getattr(tc, spec[1])
         stim = None
-        if hasattr(c, "TV") and hasattr(c, "TV_IN"):
-            stim = [(lambda top, tv=tv, c=c: c.TV_IN(top, tv)) for tv in c.TV]
+        if hasattr(c, "TV") and hasattr(c, "TV_IN") and hasattr(c, "TV_OUT"):
+            stim = [((lambda top, tv=tv, c=c: c.TV_IN(top, tv)), (lambda top, tv=tv, c=c: c.TV_OUT(top, tv)))
+                    for tv in c.TV]
         return spec[1], c.DUT, stim
     if kind == "stdlib":
         t = _stdlib_table()
@@ -210,11 +211,17 @@ TRANSLATION_REJECTS = ("PyMTLTypeError", "PyMTLSyntaxError", "VerilogTranslation
                        "InvalidPlaceholderError", "UpdateFFBlockWriteError", "UpdateFFNonTopLevelSignalError")
 
 
-def prepare(spec, backend, nrand, ncyc, seed_tag="", want_text=False, configure=None):
+def prepare(spec, backend, nrand, ncyc, seed_tag="", want_text=False, configure=None, cross=False):
     """Everything pymtl3 does for one design.  Returns a dict:
-       status: "ok" | "untranslatable" | "placeholder" | "syntax" | "unsupported" | "nosim"
-       traces: list of SVSemTrace traces (first: drivers trace)"""
+       status: "ok" | "untranslatable" | "placeholder" | "syntax" | "unsupported" | "unbuildable" | "unresolvable"
+       traces: list of SVSemTrace traces (first: drivers trace; then, for a repo case with vectors, the
+               maintainers' vectors; then one per PyMTL simulation run)
+       nosim:  set when the PyMTL simulation of the design raises before the first stimulus cycle (there
+               is no PyMTL behaviour to compare with; syntax / OneDriver / hand vectors are still checked)"""
     out = {"spec": spec[:2], "backend": backend, "status": "ok", "traces": [], "info": "", "aborted": 0}
+    if spec[0] == "gen":
+        out["src"] = spec[2]
+        out["meta"] = spec[4] if len(spec) > 4 else {}
     with common.scratch():
         try:
             name, factory, repo_stim = resolve(spec)
@@ -250,9 +257,29 @@ def prepare(spec, backend, nrand, ncyc, seed_tag="", want_text=False, configure=
             return out
         out["nodes"] = _nodes(flat)
         out["traces"].append(H.drivers_trace(flat, tag=name + "/drivers"))
+        flat_sv = None
+        if cross and backend != H.SV:
+            # the SystemVerilog text of the same design, validated on the same recorded vectors (C12)
+            try:
+                text_sv, top_sv = H.translate(factory, H.SV, configure)
+                flat_sv = H.design_of(text_sv, top_sv)
+            except Exception as e:
+                out["cross_info"] = "%s: %s" % (type(e).__name__, " ".join(str(e).split())[:200])
+        # -- the maintainers' hand-written vectors, taken as a trace directly (no PyMTL simulation)
+        if spec[0] == "repo" and repo_stim is not None:
+            import pymtl3.passes.testcases.test_cases as tc
+            c = getattr(tc, spec[1])
+            try:
+                tr, nexp = H.vector_trace(flat, backend, factory, c.TV, c.TV_IN, c.TV_OUT, tag=name + "/hand-vectors")
+                tr["kind"] = "vectors"
+                out["traces"].append(tr)
+                out["tv"] = {"vectors": len(c.TV), "expectations": nexp}
+            except H._VecUnsupported as e:
+                out["tv_unsupported"] = str(e)
         # -- PyMTL behaviour
         try:
             sets = []
+            tvres = []
             if repo_stim is not None:
                 sets.append(("repo-vectors", repo_stim))
             R = rng("stim/%s/%s/%s" % (seed_tag, backend, name))
@@ -266,18 +293,24 @@ def prepare(spec, backend, nrand, ncyc, seed_tag="", want_text=False, configure=
             if not sets:
                 sets.append(("reset-only", []))
             for label, stim in sets:
-                ports, cycles, aborted = H.record(factory, stim)
+                ports, cycles, aborted = H.record(factory, stim, tvres=tvres if label == "repo-vectors" else None)
                 if aborted:
                     out["aborted"] += 1
-                    if label == "repo-vectors":
-                        out["info"] += " repo vectors aborted: %s;" % aborted
+                    out["info"] += " %s aborted after %d cycles: %s;" % (label, len(cycles), aborted)
+                    if len(cycles) <= 3:
+                        out["nosim"] = aborted
                 if cycles:
                     tr = H.make_trace(flat, backend, ports, cycles, tag="%s/%s" % (name, label))
                     tr["nports_out"] = len([p for p in ports if p[1] == "out"])
                     out["traces"].append(tr)
+                    if flat_sv is not None and label in ("random-0", "reset-only"):
+                        tr2 = H.make_trace(flat_sv, H.SV, ports, cycles, tag="%s/%s/sv-text" % (name, label))
+                        tr2["kind"] = "cross"
+                        out["traces"].append(tr2)
+            if repo_stim is not None:
+                out["tv_pymtl"] = {"ok": sum(1 for x in tvres if x), "fail": sum(1 for x in tvres if not x)}
         except Exception as e:
-            out["status"] = "nosim"
-            out["info"] = "%s: %s" % (type(e).__name__, " ".join(str(e).split())[:300])
+            out["nosim"] = "%s: %s" % (type(e).__name__, " ".join(str(e).split())[:300])
             out["tb"] = traceback.format_exc()[-1500:]
     return out
 
